@@ -9,6 +9,7 @@ import (
 	"encoding/base64"
 	"encoding/json"
 	"math/big"
+	"net"
 	"net/url"
 	"strconv"
 	"strings"
@@ -634,6 +635,28 @@ func corner(worlds []*World) []*Case {
 			}
 			out = append(out, &Case{W: wi, M: p.Name, TokOp: natural[p.Ty][0], Op: natural[p.Ty][0], Muts: []Mut{{K: "sub", S: ""}}})
 			out = append(out, &Case{W: wi, M: p.Name, TokOp: natural[p.Ty][0], Op: natural[p.Ty][0], Muts: []Mut{{K: "sub", S: "\x00del"}}})
+		}
+		// every DNS name of the CA, its port variants, and its nearest foreign neighbours (fixed, every seed):
+		// another IPv6 literal sharing the first hextet, a neighbouring IPv4 address, a name with the CA's name as prefix / suffix
+		for _, h := range w.hosts {
+			hn := toHostname(h)
+			variants := []string{hn, hn + ":9000", hn + ":443", "x" + hn, hn + ".evil.test", "evil." + hn}
+			if strings.HasPrefix(hn, "[") {
+				variants = append(variants, "[::2]", "[::2]:9000", "[::1:1]", "[0::1]", "[::]", "["+strings.Trim(hn, "[]")+"1]", "[fd00::1]")
+			}
+			if ip := net.ParseIP(h); ip != nil && ip.To4() != nil {
+				variants = append(variants, "10.1.2.4", "10.1.2.30", "10.1.2.4:8443", "10.1.2")
+			}
+			if i := strings.Index(hn, ":"); i > 0 && !strings.HasPrefix(hn, "[") { // name with a port in dnsNames
+				variants = append(variants, hn[:i], hn[:i]+":1", strings.ToLower(hn))
+			}
+			for _, v := range variants {
+				for _, m := range []string{"jwk", "x5c"} {
+					for _, op := range []string{"sign", "revoke"} {
+						out = append(out, &Case{W: wi, M: m, TokOp: op, Op: op, Muts: []Mut{{K: "aud:host", S: v}}})
+					}
+				}
+			}
 		}
 		// a token of any provisioner re-addressed to the ACME provisioner's fragment
 		for _, m := range []string{"jwk", "removed", "x5c"} {
